@@ -1,4 +1,3 @@
-unsigned char _binary_datasegments_start[] = {104,101,108,108,111,80,65,83,83,73,86,69,88,89,101,110,100,90};
 
 #include "vh.h"
 #include "w2c2_base.h"
